@@ -310,9 +310,6 @@ class Group(Kind):
                 out += k.enc(x)
         return out
 
-    def cls_of(self, v):
-        return f'n={min(len(v), 2)}{"+" if len(v) >= 2 else ""}'
-
 
 class Struct(Kind):
     """nested record, value: tuple"""
@@ -677,7 +674,7 @@ ATT = {
     'ATT_Find_By_Type_Value_Request': (0x06, [('starting_handle', _H), ('ending_handle', _H), ('attribute_type', Uuid((2,))), ('attribute_value', Rest(40))]),
     'ATT_Find_By_Type_Value_Response': (0x07, [('handles_information_list', Rest(40))]),
     'ATT_Read_By_Type_Request': (0x08, [('starting_handle', _H), ('ending_handle', _H), ('attribute_type', Uuid((2, 16)))]),
-    'ATT_Read_By_Type_Response': (0x09, [('length', u8), ('attribute_data_list', Rest(60))]),
+    'ATT_Read_By_Type_Response': (0x09, [('length', Int(1, choices=[2, 3, 4, 7, 18, 255])), ('attribute_data_list', Rest(60))]),
     'ATT_Read_Request': (0x0A, [('attribute_handle', _H)]),
     'ATT_Read_Response': (0x0B, [('attribute_value', Rest(520, (511, 512, 513)))]),
     'ATT_Read_Blob_Request': (0x0C, [('attribute_handle', _H), ('value_offset', u16)]),
@@ -685,7 +682,7 @@ ATT = {
     'ATT_Read_Multiple_Request': (0x0E, [('set_of_handles', U16ListRest(2, 8))]),
     'ATT_Read_Multiple_Response': (0x0F, [('set_of_values', Rest(100))]),
     'ATT_Read_By_Group_Type_Request': (0x10, [('starting_handle', _H), ('ending_handle', _H), ('attribute_group_type', Uuid((2, 16)))]),
-    'ATT_Read_By_Group_Type_Response': (0x11, [('length', u8), ('attribute_data_list', Rest(60))]),
+    'ATT_Read_By_Group_Type_Response': (0x11, [('length', Int(1, choices=[4, 6, 20, 255])), ('attribute_data_list', Rest(60))]),
     'ATT_Write_Request': (0x12, [('attribute_handle', _H), ('attribute_value', Rest(520))]),
     'ATT_Write_Response': (0x13, []),
     'ATT_Prepare_Write_Request': (0x16, [('attribute_handle', _H), ('value_offset', u16), ('part_attribute_value', Rest(520))]),
